@@ -20,7 +20,8 @@ CHECKS = {
                 'handler nothing empties current_warnings (stays readable); the Err exit of the delivery block is reached '
                 'only with has_error() = true and never after a reset; add_error(is_warning=false) always passes '
                 'force_end and can_continue depends on has_error; add_error is the single producer of both lists. '
-                'These hold for every program and history at once; the suite never installs a handler and continues.',
+                'These hold for every program and history at once; the suite never installs a handler and continues.'
+                ' Plus: no call of the error handler is reachable with a look-ahead snapshot pending (a time-limited continue that pauses inside the look-ahead reports nothing yet).',
         'design_ref': 'DESIGN.md §4 C13',
         'note': TRUST + ' Not decided: exact multiplicity of delivery across nested continues at run time.',
         'technique': 'static analysis: MIR must-pass-through + guard-atom dataflow + field provenance',
@@ -47,7 +48,8 @@ CHECKS = {
                 'while wrapping in release, nor panic on zero divisors, for any program. (B) in continue_internal a '
                 'step\'s StoryError always reaches add_error and is never propagated out of the interpreter loop; '
                 'add_error(false) force-ends. (C) reset_state replaces the whole state and re-runs reset_globals.'
-                ' (D) no unwrap of a list item\'s optional origin name. (E) taint rule: no unwrap/expect of a downcast (or of peek itself) of a value taken from the evaluation stack, or of an operand inside NativeFunctionCall, unless that downcast was tested; the 4 exceptions rest on separately checked conditions: the Void test dominates every dispatch in NativeFunctionCall::call, the list-increment helper has one caller under both is_some tests, the Tag pop is dominated by is::<Tag>().',
+                ' (D) no unwrap of a list item\'s optional origin name. (E) taint rule: no unwrap/expect of a downcast (or of peek itself) of a value taken from the evaluation stack, or of an operand inside NativeFunctionCall, unless that downcast was tested; the 4 exceptions rest on separately checked conditions: the Void test dominates every dispatch in NativeFunctionCall::call, the list-increment helper has one caller under both is_some tests, the Tag pop is dominated by is::<Tag>().'
+                ' (F) every path that starts a new continue clears did_safe_exit before the end-of-content diagnosis reads it (force_end sets it also outside a continue).',
         'design_ref': 'DESIGN.md §4 C04',
         'note': TRUST + ' Not decided: reachability of the interpreter\'s ~250 unwrap/index sites from compiler-accepted '
                 'programs (a per-site belief table would not be a decision).',
@@ -73,7 +75,8 @@ CHECKS = {
                 '(Value::new per payload type, Glue, ControlCommand, NativeFunctionCall, Void, Divert, ChoicePoint, ...), '
                 'both apply the same version bounds, and the hand-written tokenizer distinguishes every JSON string '
                 'escape of RFC 8259 §7. A key, object kind or escape known to one loader only makes some document load '
-                'differently under the other feature configuration.',
+                'differently under the other feature configuration.'
+                ' Plus: no decoder function reads a thread-local / static cell (every decoded object is a fresh allocation); a first-key comparison of the streaming decoder with a literal that is a possible ink identifier is taken together with a test of the value\'s kind.',
         'design_ref': 'DESIGN.md §4 C14',
         'note': TRUST + ' Not decided: equality of the constructed trees for every document, number forms, whitespace layouts.',
         'technique': 'static analysis: string/char-constant table recovery from MIR and cross-checking of sibling implementations',
@@ -85,7 +88,8 @@ CHECKS = {
                 '(2) every field of the eight persistent structs (63 fields) is read by its writer and assigned by its '
                 'reader or is classified (derived cache / transient by design / persisted elsewhere) - a new field is '
                 'reported until classified; (3) write_rtobject has a branch for each impl RTObject type and ValueType '
-                'variant and the reader constructs each kind. One missing key or field loses that state for every save.',
+                'variant and the reader constructs each kind. One missing key or field loses that state for every save.'
+                ' Plus: a save key is read back into the field it was written from (16 keys paired through assignments and constructor parameters); loading never leaves the flow it makes current parked in named_flows as well (it would be saved twice under one key).',
         'design_ref': 'DESIGN.md §4 C02',
         'note': TRUST + ' Not decided: that equal save text implies equal futures; float fidelity; history-dependent aspects.',
         'technique': 'static analysis: key-table recovery (Map::insert keys vs Map::get keys), field-coverage over MIR places, downcast/variant exhaustiveness',
@@ -97,7 +101,8 @@ CHECKS = {
                 'A=F,C=T; CALL only with A=T or A=F,B=F,C=F; arguments.reverse() on every path from the pop loop to the '
                 'call, loop bounded by number_of_arguments, result pushed on every path; no call/unwrap without a '
                 'binding; continue_async validates bindings before running. The suite binds everything as safe, so the '
-                'unsafe mode and the refusal path are never executed by any test.',
+                'unsafe mode and the refusal path are never executed by any test.'
+                ' Plus: the recursive walk that validates bindings (found by its role) recurses over the whole of named_content and over content.',
         'design_ref': 'DESIGN.md §4 C12',
         'note': TRUST + ' Not decided: number of host calls per executed call across rewinds; argument values.',
         'technique': 'static analysis: guard-atom abstract interpretation (typestate) + CFG must-pass-through over MIR',
@@ -218,7 +223,8 @@ CHECKS = {
                 'is followed by discard_snapshot on every path; rewind replaces the state as a whole; commit and rewind '
                 'both apply the patch unless a background save is active. If a piece of state were missing from the copy, '
                 'effects written after a line end would be lost whenever the look-ahead is committed.'
-                ' (D) the function-start trimming marker is cleared on the whole run of function frames (store inside a loop over the frames), and set where a frame is pushed.',
+                ' (D) the function-start trimming marker is cleared on the whole run of function frames (store inside a loop over the frames), and set where a frame is pushed.'
+                ' (E) a visit count stored into the look-ahead patch as previous + 1 reads "previous" through the patch.',
         'design_ref': 'DESIGN.md §4 C01',
         'note': TRUST + ' NOT decided (the bulk of C01): that text, tags, choices and counts equal what the Ink language '
                 'prescribes for every program and choice path - that needs an independent interpreter and execution.',
@@ -233,7 +239,8 @@ CHECKS = {
                 'touches every Choice field that carries expressions (type-level walker coverage), and the validator\'s '
                 'lookup checkers return Err when every declared-name lookup fails. Two genuine gaps of (c) are recorded as '
                 'known findings (unknown functions and unknown variables are accepted).'
-                ' Added clauses: every call of a function taking Option<&EmitContext> passes a context derived from the caller\'s own; keys of emitted list literals come from resolve_list_item (1 known finding); resolve_divert_target consults every flow-name table EmitScope::child_flow builds (derived from initialiser provenance) and returns a bare name only after a successful lookup (1 known finding).',
+                ' Added clauses: every call of a function taking Option<&EmitContext> passes a context derived from the caller\'s own; keys of emitted list literals come from resolve_list_item (1 known finding); resolve_divert_target consults every flow-name table EmitScope::child_flow builds (derived from initialiser provenance) and returns a bare name only after a successful lookup (1 known finding).'
+                ' Further clauses: a line number attached to an error is one index of the parsed slice plus 1; no string is sliced at a position that counts characters; a slice between a left and a right search is preceded by a comparison of the two positions; tokens inserted in front of an emitted body are declared through the scope\'s param_offset, and index paths into a parameterised flow account for the prepended parameter tokens (two narrow sibling rules; that emitted index paths denote existing content in general is not decided).',
         'design_ref': 'DESIGN.md §4 C06',
         'note': TRUST + ' Not decided: termination and panic-freedom of the parser (run-time computed byte offsets), line '
                 'numbers of errors, that resolved paths in emitted JSON denote existing content, names inside choice text '
